@@ -5051,8 +5051,11 @@ func (p *Parser) tryParseCreateModelInputOutput() *ast.CreateModelInputOutput {
 
 func (p *Parser) parseCreateModel(pos token.Pos, orReplace bool) *ast.CreateModel {
 	p.expectKeywordLike("MODEL")
-	name := p.parseIdent()
 	ifNotExists := p.parseIfNotExists()
+	name := p.parseIdent()
+	if !ifNotExists {
+		ifNotExists = p.parseIfNotExists()
+	}
 	inputOutput := p.tryParseCreateModelInputOutput()
 	remote := p.expectKeywordLike("REMOTE").Pos
 	options := p.tryParseOptions()
